@@ -10,7 +10,7 @@ FUNCTIONS = ['bycycle.utils.dataframes.limit_df', 'bycycle.utils.dataframes.get_
              'bycycle.utils.timeseries.limit_signal', 'bycycle.utils.dataframes.split_samples_df',
              'bycycle.utils.dataframes.drop_samples_df', 'bycycle.utils.dataframes.flatten_dfs']
 BOUNDS = {'quick': 'limit_df: 1..3 cycles, both centrings, sample indices <= 8, start/stop each None or real with fs*start <= 6 and fs*stop <= 9, fs in {1,2,0.5}, reset_indices both; limit_signal: <= 5 samples; split/drop: 1..3 rows; flatten_dfs: 1..3 tables (1-D), up to 2x2 (2-D)',
-          'thorough': 'limit_df: 1..4 cycles, fs in {1,2,0.5,4}; limit_signal <= 7 samples; flatten_dfs up to 4 tables / 2x3'}
+          'thorough': 'limit_df: 1..4 cycles, fs in {1,2,0.5,4}, and 4..5 cycles with sample indices <= 12; limit_signal <= 10 samples; flatten_dfs up to 6 tables / 3x3, 2x4, 4x2'}
 OUTSIDE = 'IEEE rounding of fs*start and int(fs*start) (exact reals here; see the C20 floating-point kernels); longer tables'
 STUBS = []
 ASSUMPTIONS = ['tables satisfy the C01 ordering invariant; time stamps strictly increase; 0 <= start <= stop']
@@ -34,7 +34,14 @@ def configs(tier):
                                 continue
                             out.append({'fn': 'limit_df', 'rows': rows, 'centre': centre, 'start': st, 'stop': sp,
                                         'reset': reset, 'fs': fs})
-    for n in range(1, (5 if q else 7) + 1):
+    if not q:
+        # longer tables on a longer signal (sample indices <= 12, fs*start <= 10, fs*stop <= 13)
+        for rows in (4, 5):
+            for centre in ('peak', 'trough'):
+                for reset in (True, False):
+                    out.append({'fn': 'limit_df', 'rows': rows, 'centre': centre, 'start': 'real', 'stop': 'real',
+                                'reset': reset, 'fs': 1, 'maxs': 12})
+    for n in range(1, (5 if q else 10) + 1):
         out.append({'fn': 'limit_signal', 'n': n})
     # tables whose index labels repeat (the output of flatten_dfs / pd.concat)
     for centre in ('peak', 'trough'):
@@ -47,9 +54,9 @@ def configs(tier):
     # ... also for a table that does not carry the default 0..n-1 row labels (a windowed / filtered table)
     for fn in ('split', 'drop'):
         out.append({'fn': fn, 'rows': 2, 'centre': 'peak', 'index': 'shifted'})
-    for k in range(1, (3 if q else 4) + 1):
+    for k in range(1, (3 if q else 6) + 1):
         out.append({'fn': 'flatten1', 'k': k})
-    for a, b in ([(1, 1), (1, 2), (2, 1), (2, 2)] + ([] if q else [(2, 3), (3, 2)])):
+    for a, b in ([(1, 1), (1, 2), (2, 1), (2, 2)] + ([] if q else [(2, 3), (3, 2), (1, 3), (3, 1), (3, 3), (2, 4), (4, 2)])):
         out.append({'fn': 'flatten2', 'a': a, 'b': b})
     out.append({'fn': 'flatten_mismatch'})
     return out
@@ -100,16 +107,17 @@ def run(ctx, cfg):
     if fn == 'limit_df':
         rows, centre, fs, reset = cfg['rows'], cfg['centre'], cfg['fs'], cfg['reset']
         data, scols = sample_table(ctx, rows, centre)
-        ctx.assume(data[scols[-1]][-1] <= 8)
+        maxs = cfg.get('maxs', 8)
+        ctx.assume(data[scols[-1]][-1] <= maxs)
         start = stop = None
         if cfg['start'] == 'real':
             start = ctx.real('start')
             ctx.assume(start >= 0)
-            ctx.assume(start * fs <= 6)
+            ctx.assume(start * fs <= maxs - 2)
         if cfg['stop'] == 'real':
             stop = ctx.real('stop')
             ctx.assume(stop >= (start if start is not None else 0))
-            ctx.assume(stop * fs <= 9)
+            ctx.assume(stop * fs <= maxs + 1)
         df = pd.DataFrame({c: list(v) for c, v in data.items()})
         if cfg.get('index') == 'dup':
             parts = [pd.DataFrame({c: [v[i]] for c, v in data.items()}) for i in range(rows)]
